@@ -439,12 +439,16 @@ StartShutdown ==     \* Shutdown() is called: the shutting-down flag is set befo
   /\ WithShutdown /\ pc[D] = "none" /\ Go(D, "new!") /\ shuttingDown' = TRUE
   /\ UC(<<res, ret, cvars, listener, acceptQ, wg, recvCtx, srvCtx, timer, serveRes, sdReturned, lateHandler, panicked>>)
 
+OwnerClose ==    \* the owner of the listener closes it itself, before it calls Shutdown: Serve ends, connections live on
+  /\ WithShutdown /\ listener = "open" /\ pc[D] = "none" /\ listener' = "closed"
+  /\ UC(<<pc, res, ret, cvars, acceptQ, wg, recvCtx, srvCtx, timer, serveRes, sdReturned, lateHandler, panicked, shuttingDown>>)
+
 TimerFire ==     \* the 3 s grace timer fires (time is an ordering here)
   /\ timer = "armed" /\ pc[T] = "none" /\ timer' = "fired" /\ Go(T, "new!")
   /\ UC(<<res, ret, cvars, listener, acceptQ, wg, recvCtx, srvCtx, serveRes, sdReturned, lateHandler, panicked, shuttingDown>>)
 
 Env == \/ \E c \in Conns : CliConnect(c) \/ CliHalfClose(c) \/ CliClose(c) \/ (\E k \in Kinds : CliSend(c, k))
-       \/ StartShutdown \/ TimerFire
+       \/ StartShutdown \/ TimerFire \/ OwnerClose
 
 Sched == \E p \in Procs : Release(p) \/ Arrive(p)
 Next == (~panicked) /\ (Sched \/ (\E c \in Conns : Handoff(c)) \/ Env)
